@@ -19,4 +19,52 @@ def rmax (a b : Rat) : Rat := if a < b then b else a
 def rmin (a b : Rat) : Rat := if b < a then b else a
 def rabs (a : Rat) : Rat := if a < 0 then -a else a
 
+/-! Lists (PyLite 2): Python lists, tuples used as vectors, 1-d numpy arrays and generators are all `List α`.
+  `idx`          `xs[i]` with Python's negative indices; out of range Python raises IndexError, here the type's default value
+                 (theorems are stated on indices in range).
+  `range a b`    `range(a, b)`;  `enumerate`;  `product xs n` = `itertools.product(xs, repeat=n)` in itertools' order (first
+                 coordinate slowest);  `rprod / iprod` = `math.prod / np.prod`;  sums are `List.sum`.
+  `setAt`        the list after `xs[i] = v`;  `insertAt` = `np.insert(xs, i, v)` for 0 ≤ i ≤ len;  `popAt` = list after `xs.pop(i)`.
+  `searchsorted` `np.searchsorted(xs, t)` (side='left') for an increasing `xs`: the number of leading elements `< t`.
+  `cumsum`, `zeros`. -/
+
+def idx {α : Type} [Inhabited α] (xs : List α) (i : Int) : α :=
+  if i < 0 then xs.getD (xs.length - (-i).toNat) default else xs.getD i.toNat default
+
+def range (a b : Int) : List Int := (List.range (b - a).toNat).map (fun (k : Nat) => a + (k : Int))
+
+def enumerate {α : Type} (xs : List α) : List (Int × α) := (range 0 (xs.length : Int)).zip xs
+
+def product {α : Type} (xs : List α) : Nat → List (List α)
+  | 0 => [[]]
+  | n + 1 => xs.flatMap (fun x => (product xs n).map (fun p => x :: p))
+
+def rprod (xs : List Rat) : Rat := xs.foldr (· * ·) 1
+def iprod (xs : List Int) : Int := xs.foldr (· * ·) 1
+
+def setAt {α : Type} (xs : List α) (i : Int) (v : α) : List α :=
+  if i < 0 then xs.set (xs.length - (-i).toNat) v else xs.set i.toNat v
+
+def insertAt {α : Type} (xs : List α) (i : Int) (v : α) : List α := xs.take i.toNat ++ v :: xs.drop i.toNat
+
+def popAt {α : Type} (xs : List α) (i : Int) : List α :=
+  if i < 0 then xs.eraseIdx (xs.length - (-i).toNat) else xs.eraseIdx i.toNat
+
+def sliceFrom {α : Type} (xs : List α) (a : Int) : List α :=
+  if a < 0 then xs.drop (xs.length - (-a).toNat) else xs.drop a.toNat
+
+def sliceTo {α : Type} (xs : List α) (b : Int) : List α :=
+  if b < 0 then xs.take (xs.length - (-b).toNat) else xs.take b.toNat
+
+def searchsorted (xs : List Rat) (t : Rat) : Int := ((xs.takeWhile (fun x => decide (x < t))).length : Int)
+
+def cumsumFrom (acc : Rat) : List Rat → List Rat
+  | [] => []
+  | x :: xs => (acc + x) :: cumsumFrom (acc + x) xs
+def cumsum (xs : List Rat) : List Rat := cumsumFrom 0 xs
+
+def zeros (n : Int) : List Rat := List.replicate n.toNat 0
+
+def castList (xs : List Int) : List Rat := xs.map (fun (z : Int) => (z : Rat))
+
 end Rpylib.Py
